@@ -62,6 +62,9 @@ func c12Start(k int) *txref.Tx {
 		t.Ins = []txref.In{p2pkhIn(0, 1_000_000)}
 		t.Outs = []txref.Out{std}
 	case 5: // nothing at all
+	case 10: // a transaction with a lock time
+		t.LockTime = 650000
+		t.Outs = []txref.Out{std}
 	case 9: // two data outputs and a standard one
 		t.Outs = []txref.Out{{Sats: 0, Script: append([]byte{0x00, 0x6a, 0x4c, 100}, fill(100, 5)...)}, std, {Sats: 0, Script: append([]byte{0x6a, 0x4c, 150}, fill(150, 6)...)}}
 	case 6, 7, 8: // 250 / 251 / 252 prior inputs: the next ones cross the 252|253 input-count boundary
@@ -259,7 +262,7 @@ func c12Check(c c12Case) []rep.Finding { return c12Run(c).fs }
 
 func init() {
 	p := register(&Prop{ID: "C12", Level: "model_checking",
-		Rule: "explicit-state exploration of the funding loop through the real Tx.Fund with the supplier as the nondeterministic environment: every supplier history of length <=4 (quick) / <=5 (thorough; one less from the three start states with 250/251/252 prior inputs, where new inputs cross the 252|253 count boundary) over 13 answers {ErrNoUTXO, wrapped ErrNoUTXO, other error, empty batch, [small], [small,small], [exactly the deficit], [deficit-1], [huge], [huge,small], [31-byte txid], [UTXO with a sequence field], [non-P2PKH UTXO]} (exhaustion after the history ends) x 10 starting transactions (no inputs, prior unsigned/signed input, data output, already funded, empty, 250/251/252 prior inputs, two data outputs) x 5 fee quotes (incl. unequal data rate and a rate that is not an exact binary fraction); a reference loop with a big-integer fee model runs in lockstep inside the supplier: a state is (start, quote, inputs so far, current deficit), a transition is one supplier call. Oracle: supplier called only with a deficit and with exactly the current one, success iff covered, inputs = previous ++ batches field for field with final sequence, exhaustion -> ErrInsufficientFunds, supplier error propagated, outputs untouched",
+		Rule: "explicit-state exploration of the funding loop through the real Tx.Fund with the supplier as the nondeterministic environment: every supplier history of length <=4 (quick) / <=5 (thorough; one less from the three start states with 250/251/252 prior inputs, where new inputs cross the 252|253 count boundary) over 13 answers {ErrNoUTXO, wrapped ErrNoUTXO, other error, empty batch, [small], [small,small], [exactly the deficit], [deficit-1], [huge], [huge,small], [31-byte txid], [UTXO with a sequence field], [non-P2PKH UTXO]} (exhaustion after the history ends) x 11 starting transactions (no inputs, with a lock time, prior unsigned/signed input, data output, already funded, empty, 250/251/252 prior inputs, two data outputs) x 5 fee quotes (incl. unequal data rate and a rate that is not an exact binary fraction); a reference loop with a big-integer fee model runs in lockstep inside the supplier: a state is (start, quote, inputs so far, current deficit), a transition is one supplier call. Oracle: supplier called only with a deficit and with exactly the current one, success iff covered, inputs = previous ++ batches field for field with final sequence, exhaustion -> ErrInsufficientFunds, supplier error propagated, outputs untouched",
 	})
 	sp := NewSpace(p, "histories", c12Check)
 	p.Run = func(r *rep.Run, thorough bool) {
@@ -287,7 +290,7 @@ func init() {
 			}
 			return res.fs
 		}}).Each(r, func(yield func(c12Case)) {
-			for st := 0; st < 10; st++ {
+			for st := 0; st < 11; st++ {
 				for _, q := range quotes {
 					var rec func(h []int)
 					rec = func(h []int) {
